@@ -1,43 +1,58 @@
-// C01 (histories): single-threaded BFS over submit / cancel / run-loop / destroy histories on the real loop.
-// usage: hist_harness <engine> <depth>
+// C01 (histories): single-threaded BFS over submit / cancel / run-loop / cleanup / destroy histories on the real loop.
+// usage: hist_harness <engine> <depth> [sizes-depth]
+//   main search : every history up to <depth> over the full alphabet (bulk size fixed at 3)
+//   size lanes  : one extra search per bulk size N (around the documented drain bound of 100 generations and well
+//                 above it) over a reduced alphabet, depth [sizes-depth]: N callables pending in ONE generation at
+//                 loop stop / cleanup() / destruction, submitted from outside or by a callable of the last iteration.
 #include "hist/hist.h"
 #include <tbox/event/loop.h>
 #include <tbox/event/common_loop.h>
 #include <sys/epoll.h>
 #include <sys/select.h>
 #include <sys/syscall.h>
+#include <unordered_map>
 
 using namespace tbox::event;
-static CommonLoop *g_cl = nullptr; static long g_idle_exits = 0;
+struct World;
+static CommonLoop *g_cl = nullptr; static World *g_w = nullptr; static long g_idle_exits = 0;
+static int g_bulk_n = 3;
+static void idle_hook();
 // When the loop would block forever with nothing ready, an exit request "arrives" (keeps the single-threaded run finite).
+// Before that the model is asked whether any callable is still owed: a loop that goes to sleep with work pending is a lost wake-up.
 extern "C" int epoll_wait(int epfd, struct epoll_event *ev, int maxev, int timeout) {
   int n = (int)syscall(SYS_epoll_wait, epfd, ev, maxev, 0);
-  if (n == 0 && timeout != 0 && g_cl) { g_idle_exits++; g_cl->stopLoop(); }
+  if (n == 0 && timeout != 0 && g_cl) idle_hook();
   return n;
 }
 extern "C" int select(int nfds, fd_set *r, fd_set *w, fd_set *e, struct timeval *tv) {
   struct timeval z = {0, 0}; bool blocking = !(tv && tv->tv_sec == 0 && tv->tv_usec == 0);
   int n = (int)syscall(SYS_select, nfds, r, w, e, &z);
-  if (n == 0 && blocking && g_cl) { g_idle_exits++; g_cl->stopLoop(); }
+  if (n == 0 && blocking && g_cl) idle_hook();
   return n;
 }
 
-enum Kind { SUB_NEXT, SUB_INLOOP, SUB_RUN, CANCEL, PASS_FOREVER, PASS_ONCE };
-enum Beh { PLAIN, CHILD_NEXT, CHILD_INLOOP, CANCEL_FOLLOWING, CANCEL_PREVIOUS, EXIT, CANCEL_SELF, NBEH };
+enum Kind { SUB_NEXT, SUB_INLOOP, SUB_RUN, CANCEL, PASS_FOREVER, PASS_ONCE, CLEANUP, TOPBULK_NEXT, TOPBULK_INLOOP, NKIND };
+enum Beh { PLAIN, CHILD_NEXT, CHILD_INLOOP, CANCEL_FOLLOWING, CANCEL_PREVIOUS, EXIT, CANCEL_SELF, CHAIN3, BULK, NBEH };
 struct Op { int k, a; };
-static const char *kN[] = {"runNext", "runInLoop", "run", "cancel", "loopForever", "loopOnce"};
-static const char *bN[] = {"plain", "child-next", "child-inloop", "cancel-following", "cancel-previous", "exit", "cancel-self"};
+static const char *kN[] = {"runNext", "runInLoop", "run", "cancel", "loopForever", "loopOnce", "cleanup", "bulkNext", "bulkInLoop"};
+static const char *bN[] = {"plain", "child-next", "child-inloop", "cancel-following", "cancel-previous", "exit", "cancel-self", "chain3", "bulk"};
 
 struct Task { int entry = 0; int beh = 0; Loop::RunId id = 0; int ran = 0; bool cancelled_ok = false; long order = 0; int parent = -1; };
 struct World {
-  Loop *loop; std::vector<Task> t; long order = 0; std::string viol; bool in_pass = false;
+  Loop *loop; std::deque<Task> t; long order = 0; std::string viol; bool in_pass = false; long exit_at = 0;
   int add(int entry, int beh, int parent) { Task nt; nt.entry = entry; nt.beh = beh; nt.parent = parent; t.push_back(nt); return (int)t.size() - 1; }
   void submit(int idx) {
     auto f = [this, idx] { exec(idx); };
     Task &x = t[idx];
-    if (x.entry == SUB_NEXT) x.id = loop->runNext(f); else if (x.entry == SUB_INLOOP) x.id = loop->runInLoop(f); else x.id = loop->run(f);
+    if (idx & 1) {      // odd tasks go through the `const Func &` overloads, even ones through `Func &&`
+      const Loop::Func cf(f);
+      if (x.entry == SUB_NEXT) x.id = loop->runNext(cf); else if (x.entry == SUB_INLOOP) x.id = loop->runInLoop(cf); else x.id = loop->run(cf);
+    } else {
+      if (x.entry == SUB_NEXT) x.id = loop->runNext(f); else if (x.entry == SUB_INLOOP) x.id = loop->runInLoop(f); else x.id = loop->run(f);
+    }
     if (x.id == 0) viol = "submit-returned-null-id";
   }
+  void spawn(int entry, int beh, int parent) { int c = add(entry, beh, parent); submit(c); }
   void do_cancel(int idx) {
     if (idx < 0 || idx >= (int)t.size()) return; Task &x = t[idx];
     bool r = loop->cancel(x.id);
@@ -46,63 +61,99 @@ struct World {
   void exec(int idx) {
     Task &x = t[idx]; x.ran++; x.order = ++order;
     if (x.cancelled_ok) viol = "cancelled-callable-was-invoked";
-    switch (x.beh) {
-      case CHILD_NEXT: { int c = add(SUB_NEXT, PLAIN, idx); submit(c); } break;
-      case CHILD_INLOOP: { int c = add(SUB_INLOOP, PLAIN, idx); submit(c); } break;
+    int beh = x.beh, entry = x.entry;
+    switch (beh) {
+      case CHILD_NEXT: spawn(SUB_NEXT, PLAIN, idx); break;
+      case CHILD_INLOOP: spawn(SUB_INLOOP, PLAIN, idx); break;
+      case CHAIN3: spawn(SUB_NEXT, CHILD_INLOOP, idx); break;      // four generations: this -> runNext child -> runInLoop grandchild -> plain
+      case BULK: for (int i = 0; i < g_bulk_n; i++) spawn(entry, PLAIN, idx); break;   // N callables of one generation through the entry point this one came by
       case CANCEL_FOLLOWING: do_cancel(idx + 1); break;
       case CANCEL_PREVIOUS: do_cancel(idx - 1); break;
       case CANCEL_SELF: do_cancel(idx); break;        // "cancel whatever I still have pending" idiom: the running callable cancels its own id
-      case EXIT: if (in_pass) loop->exitLoop(); break;
+      case EXIT: if (in_pass) { if (!exit_at) exit_at = order; loop->exitLoop(); } break;
     }
   }
+  bool owed(const Task &x) const { return !x.cancelled_ok && x.ran == 0; }
 };
+static void idle_hook() {
+  g_idle_exits++;
+  if (g_w && g_w->viol.empty()) for (auto &x : g_w->t) if (g_w->owed(x)) { g_w->viol = std::string("loop-sleeps-with-pending-callable-") + kN[x.entry]; break; }
+  g_cl->stopLoop();
+}
+
+static std::string engine;
+static std::string show_op(const Op &o) { char b[48]; if (o.k <= SUB_RUN) snprintf(b, sizeof b, "%s(%s)", kN[o.k], bN[o.a]); else if (o.k == CANCEL) snprintf(b, sizeof b, "cancel(#%d)", o.a); else snprintf(b, sizeof b, "%s", kN[o.k]); return std::string(b); }
+
+static std::string run_history(const std::vector<Op> &h, std::string &viol) {
+  World w; w.loop = Loop::New(engine); CommonLoop *cl = static_cast<CommonLoop *>(w.loop); g_cl = cl; g_w = &w;
+  std::vector<int> top;   // indices of tasks submitted by top-level ops, in issue order
+  for (auto &o : h) {
+    switch (o.k) {
+      case SUB_NEXT: case SUB_INLOOP: case SUB_RUN: { int i = w.add(o.k, o.a, -1); top.push_back(i); w.submit(i); } break;
+      case TOPBULK_NEXT: case TOPBULK_INLOOP: for (int n = 0; n < g_bulk_n; n++) { int i = w.add(o.k == TOPBULK_NEXT ? SUB_NEXT : SUB_INLOOP, PLAIN, -1); top.push_back(i); w.submit(i); } break;
+      case CANCEL: if (o.a < (int)top.size()) w.do_cancel(top[o.a]); break;
+      case CLEANUP: w.loop->cleanup(); break;   // public drain between runs; the property says nothing about what it must run, only that nothing is lost / doubled / reordered across it
+      case PASS_FOREVER: case PASS_ONCE: {
+        long pass_start = w.order; w.exit_at = 0;
+        w.loop->runNext([] {});            // so the back-end polls instead of sleeping
+        w.in_pass = true; w.loop->runLoop(o.k == PASS_FOREVER ? Loop::Mode::kForever : Loop::Mode::kOnce); w.in_pass = false;
+        // a callable pending when the loop stops is run during shutdown: nothing that was submitted before the stop may be left behind.
+        // Decided by the model: submitted from outside (before this pass), or by a callable that ran before this pass or before the first exitLoop() call of it.
+        for (auto &x : w.t) if (w.owed(x)) {
+          if (x.parent == -1) w.viol = "callable-still-pending-after-loop-returned";
+          else { long po = w.t[x.parent].order; if (po <= pass_start || (w.exit_at && po < w.exit_at)) w.viol = "callable-submitted-before-the-stop-still-pending-after-loop-returned"; }
+        }
+      } break;
+    }
+    if (!w.viol.empty()) break;
+  }
+  // canonical state before destruction: queue contents as (entry,behaviour,ran,cancelled) of the owning task + flags
+  std::string c;
+  std::unordered_map<Loop::RunId, int> by_id; for (size_t i = 0; i < w.t.size(); i++) by_id[w.t[i].id] = (int)i;
+  auto key = [&](Loop::RunId id) { auto it = by_id.find(id); if (it == by_id.end()) return std::string("?,"); char b[32]; snprintf(b, sizeof b, "%d.%d.%d,", w.t[it->second].entry, w.t[it->second].beh, it->second - (int)w.t.size()); return std::string(b); };
+  c += "N:"; for (auto &it : cl->run_next_func_queue_) c += key(it.id); c += "|L:"; for (auto &it : cl->run_in_loop_func_queue_) c += key(it.id);
+  c += "|T:"; for (auto &it : cl->tmp_func_queue_) c += key(it.id);
+  c += "|f" + std::to_string((int)cl->has_commit_run_req_) + "|issued" + std::to_string(top.size() > 4 ? 4 : top.size());
+  // stale handles the harness may still cancel: the status of the first 4 issued callables
+  for (size_t i = 0; i < top.size() && i < 4; i++) { auto &x = w.t[top[i]]; c += (x.cancelled_ok ? 'c' : x.ran ? 'r' : 'p'); }
+  g_cl = nullptr; delete w.loop; g_w = nullptr;     // destruction runs whatever is still pending
+  if (w.viol.empty()) {
+    long last[3] = {0, 0, 0};
+    for (auto &x : w.t) { int want = x.cancelled_ok ? 0 : 1; if (x.ran != want) { w.viol = x.ran > want ? "callable-invoked-more-than-once" : "callable-dropped-never-invoked"; break; } }
+    // submission order within one entry point (tasks are created in submission order)
+    if (w.viol.empty()) for (auto &x : w.t) if (x.ran) { if (x.order < last[x.entry]) { w.viol = std::string("order-violated-within-entry-point-") + kN[x.entry]; break; } last[x.entry] = x.order; }
+  }
+  viol = w.viol;
+  return c;
+}
 
 int main(int argc, char **argv) {
-  std::string engine = argc > 1 ? argv[1] : "epoll"; size_t depth = argc > 2 ? atoi(argv[2]) : 5;
+  engine = argc > 1 ? argv[1] : "epoll"; size_t depth = argc > 2 ? atoi(argv[2]) : 5; size_t sdepth = argc > 3 ? atoi(argv[3]) : 3;
   hx::install_crash_reporter("C01-crash");
-  hx::Explorer<Op> ex; ex.name = engine; ex.deadline_s = hx::deadline_from_env(600);
-  ex.show = [](const Op &o) { char b[48]; if (o.k <= SUB_RUN) snprintf(b, sizeof b, "%s(%s)", kN[o.k], bN[o.a]); else if (o.k == CANCEL) snprintf(b, sizeof b, "cancel(#%d)", o.a); else snprintf(b, sizeof b, "%s", kN[o.k]); return std::string(b); };
-  ex.menu = [&](const std::vector<Op> &h) {
-    std::vector<Op> m; int issued = 0; for (auto &o : h) if (o.k <= SUB_RUN) issued++;
-    for (int k : {SUB_NEXT, SUB_INLOOP, SUB_RUN}) for (int b = 0; b < NBEH; b++) m.push_back({k, b});
-    for (int i = 0; i < issued && i < 4; i++) m.push_back({CANCEL, i});
-    m.push_back({PASS_FOREVER, 0}); m.push_back({PASS_ONCE, 0});
-    return m; };
-  ex.run = [&](const std::vector<Op> &h, std::string &viol) {
-    World w; w.loop = Loop::New(engine); CommonLoop *cl = static_cast<CommonLoop *>(w.loop); g_cl = cl;
-    std::vector<int> top;   // indices of tasks submitted by top-level ops, in issue order
-    for (auto &o : h) {
-      switch (o.k) {
-        case SUB_NEXT: case SUB_INLOOP: case SUB_RUN: { int i = w.add(o.k, o.a, -1); top.push_back(i); w.submit(i); } break;
-        case CANCEL: if (o.a < (int)top.size()) w.do_cancel(top[o.a]); break;
-        case PASS_FOREVER: case PASS_ONCE:
-          w.loop->runNext([] {});            // so the back-end polls instead of sleeping
-          w.in_pass = true; w.loop->runLoop(o.k == PASS_FOREVER ? Loop::Mode::kForever : Loop::Mode::kOnce); w.in_pass = false;
-          // a callable pending when the loop stops is run during shutdown: nothing may be left behind
-          for (auto &x : w.t) if (!x.cancelled_ok && x.ran == 0 && x.parent == -1) w.viol = "callable-still-pending-after-loop-returned";
-          break;
-      }
-      if (!w.viol.empty()) break;
-    }
-    // canonical state before destruction: queue contents as (entry,behaviour,ran,cancelled) of the owning task + flags
-    std::string c;
-    auto key = [&](Loop::RunId id) { for (size_t i = 0; i < w.t.size(); i++) if (w.t[i].id == id) { char b[32]; snprintf(b, sizeof b, "%d.%d.%d,", w.t[i].entry, w.t[i].beh, (int)i - (int)w.t.size()); return std::string(b); } return std::string("?,"); };
-    c += "N:"; for (auto &it : cl->run_next_func_queue_) c += key(it.id); c += "|L:"; for (auto &it : cl->run_in_loop_func_queue_) c += key(it.id);
-    c += "|T:"; for (auto &it : cl->tmp_func_queue_) c += key(it.id);
-    c += "|f" + std::to_string((int)cl->has_commit_run_req_) + "|issued" + std::to_string(top.size() > 4 ? 4 : top.size());
-    // stale handles the harness may still cancel: the status of the first 4 issued callables
-    for (size_t i = 0; i < top.size() && i < 4; i++) { auto &x = w.t[top[i]]; c += (x.cancelled_ok ? 'c' : x.ran ? 'r' : 'p'); }
-    g_cl = nullptr; delete w.loop;      // destruction runs whatever is still pending
-    if (w.viol.empty()) {
-      long last[3] = {0, 0, 0}; std::vector<int> idx(w.t.size()); for (size_t i = 0; i < idx.size(); i++) idx[i] = (int)i;
-      for (auto &x : w.t) { int want = x.cancelled_ok ? 0 : 1; if (x.ran != want) { w.viol = x.ran > want ? "callable-invoked-more-than-once" : "callable-dropped-never-invoked"; break; } }
-      // submission order within one entry point (tasks are created in submission order)
-      for (auto &x : w.t) if (x.ran) { if (x.order < last[x.entry]) { w.viol = std::string("order-violated-within-entry-point-") + kN[x.entry]; break; } last[x.entry] = x.order; }
-    }
-    viol = w.viol;
-    return c;
-  };
-  ex.explore(depth);
+  double deadline = hx::deadline_from_env(600);
+  // size lanes first (small, bounded): N callables in one generation
+  for (int n : {1, 99, 100, 101, 102, 201, 1000}) {
+    hx::Explorer<Op> ex; ex.name = engine + "-bulk" + std::to_string(n); ex.deadline_s = deadline; ex.show = show_op; ex.run = run_history;
+    ex.menu = [&](const std::vector<Op> &h) {
+      std::vector<Op> m; bool any = false; for (auto &o : h) if (o.k <= SUB_RUN || o.k >= TOPBULK_NEXT) any = true;
+      for (int k : {SUB_NEXT, SUB_INLOOP, SUB_RUN}) m.push_back({k, BULK});
+      m.push_back({SUB_NEXT, EXIT}); m.push_back({SUB_INLOOP, EXIT});
+      m.push_back({TOPBULK_NEXT, 0}); m.push_back({TOPBULK_INLOOP, 0});
+      if (any) m.push_back({CANCEL, 0});
+      m.push_back({PASS_FOREVER, 0}); m.push_back({PASS_ONCE, 0}); m.push_back({CLEANUP, 0});
+      return m; };
+    g_bulk_n = n; ex.explore(sdepth);
+  }
+  {
+    hx::Explorer<Op> ex; ex.name = engine; ex.deadline_s = deadline; ex.show = show_op; ex.run = run_history;
+    ex.menu = [&](const std::vector<Op> &h) {
+      std::vector<Op> m; int issued = 0; for (auto &o : h) if (o.k <= SUB_RUN) issued++;
+      for (int k : {SUB_NEXT, SUB_INLOOP, SUB_RUN}) for (int b = 0; b < NBEH; b++) if (b != BULK) m.push_back({k, b});
+      for (int i = 0; i < issued && i < 4; i++) m.push_back({CANCEL, i});
+      m.push_back({PASS_FOREVER, 0}); m.push_back({PASS_ONCE, 0}); m.push_back({CLEANUP, 0});
+      return m; };
+    g_bulk_n = 3; ex.explore(depth);
+  }
   printf("@STAT idle_exits=%ld\n", g_idle_exits);
   return 0;
 }
